@@ -173,7 +173,7 @@ def build(r, factors, how):
         if how == "Scalar":
             x = Scalar(c, 2.0, u)
         elif how == "Array":
-            x = Array(c, r.choice([[2.0, 3.0], (2.0, 3.0), np.array([2.0, 3.0])]), u)
+            x = Array(c, r.choice([[2.0, 3.0], (2.0, 3.0), np.array([2.0, 3.0]), [], (), np.array([])]), u)  # (an Array without values has its unit all the same)
         else:
             x = ObtainQuantity(u, c)
         k = abs(e)
